@@ -16,6 +16,7 @@ import Driver.MtHist
 import Driver.BddChk
 import Driver.ParseChk
 import Driver.MetaChk
+import Driver.LtsUtilChk
 import Driver.GlueChk
 import Driver.CliArgsChk
 import Driver.CacheChk
@@ -543,6 +544,7 @@ def dispatch (kind : String) (args res : List String) : Except String (Findings 
   | "cacheh" => utilKind "Util::Cache / CachedBinaryOp" (CacheChk.check args res)
   | "glue" => utilKind "symbol assignments / dictionaries / translators" (GlueChk.check args res)
   | "cliargs" => utilKind "command-line parsing and option handling" (CliArgsChk.check args res)
+  | "ltsutil" => utilKind "helper classes of the simulation engine" (LtsUtilChk.check args res)
   | "cliop" => checkCliOp args res
   | "apisweep" =>
     -- API sweep of C20: nothing functional is judged (a sanitizer report / crash never reaches this point); the tag is
